@@ -33,6 +33,17 @@ Proof.
   rewrite IH. destruct (Nat.eqb i id); reflexivity.
 Qed.
 
+Definition unbump (b : blobrow) : blobrow := mkBlob (b_key b) (b_form b) (Nat.pred (b_refs b)).
+
+Lemma decr_incr_from i bl id : decr_ref_from i (incr_ref_from i bl id) id = bl.
+Proof.
+  revert i; induction bl as [|b bl IH]; intros i; simpl; [reflexivity|].
+  rewrite IH. destruct (Nat.eqb i id); destruct b; reflexivity.
+Qed.
+
+Lemma decr_incr bl id : decr_ref (incr_ref bl id) id = bl.
+Proof. apply decr_incr_from. Qed.
+
 Lemma find_key_from_some i bl k id :
   find_key_from i bl k = Some id ->
   exists n b, id = i + n /\ nth_error bl n = Some b /\ b_key b = k.
@@ -100,10 +111,19 @@ Variable okey : str -> str.
 
 (** where a part's octets are after the store loop: in the row itself, or in
     a blob filed under the part's own dedup key *)
+(** the hex form of sha256 is never empty *)
+Hypothesis okey_ne : forall a, okey a <> [].
+
+(** the blob's stored form is the part's own text — or the part is empty and
+    the blob lives in the object store (blobHoldsContent compares GetBlob's ""
+    for an S3 row with the empty content) *)
+Definition form_ok (f : form) (own : str) : Prop :=
+  form_is_own okey f own = true \/ (own = [] /\ exists k, f = FS3 k).
+
 Definition row_ok (bl : list blobrow) (r : partrow) : Prop :=
   match r_blob r with
   | None => r_text r = r_own r
-  | Some id => exists b, get_blob bl id = Some b /\ b_key b = key (r_enc r) (r_own r)
+  | Some id => exists b, get_blob bl id = Some b /\ b_key b = key (r_enc r) (r_own r) /\ form_ok (b_form b) (r_own r)
   end.
 
 Definition objs_ok (objs : list (str * str)) : Prop :=
@@ -139,9 +159,10 @@ Qed.
 Lemma inv_store_blob f bl objs rows enc content id bl' :
   inv bl objs rows ->
   store_blob key f bl enc content OOk = (Some id, bl') ->
+  (forall b, get_blob bl' id = Some b -> form_ok (b_form b) content) ->
   inv bl' objs (rows ++ [mkRow (Some id) [] enc content]).
 Proof.
-  intros [R O F N] H. unfold store_blob in H.
+  intros [R O F N] H Hform. unfold store_blob in H.
   destruct (find_key bl (key enc content)) as [i|] eqn:E; inversion H; subst; clear H.
   - (* existing row: increment *)
     destruct (find_key_some _ _ _ E) as (b0 & Hb0 & Hk0).
@@ -149,8 +170,9 @@ Proof.
     + apply Forall_app. split.
       * eapply Forall_impl; [|exact R]. intros; apply row_ok_incr; assumption.
       * constructor; [|constructor]. unfold row_ok; simpl.
-        rewrite get_blob_incr, Hb0; simpl. rewrite Nat.eqb_refl.
-        eexists; split; [reflexivity|exact Hk0].
+        pose proof (Hform (bump b0)) as Hf.
+        rewrite get_blob_incr, Hb0 in *; simpl in *. rewrite Nat.eqb_refl in *.
+        eexists; split; [reflexivity|split; [exact Hk0|exact (Hf eq_refl)]].
     + assumption.
     + intros i b Hb. rewrite get_blob_incr in Hb.
       destruct (get_blob bl i) as [b1|] eqn:E1; simpl in Hb; [|discriminate].
@@ -163,8 +185,9 @@ Proof.
     + apply Forall_app. split.
       * eapply Forall_impl; [|exact R]. intros; apply row_ok_app; assumption.
       * constructor; [|constructor]. unfold row_ok; simpl.
-        rewrite nth_error_app2 by lia. rewrite Nat.sub_diag. simpl.
-        eexists; split; reflexivity.
+        pose proof (Hform (mkBlob (key enc content) f 1)) as Hf. simpl in Hf.
+        rewrite nth_error_app2 in * by lia. rewrite Nat.sub_diag in *. simpl in *.
+        eexists; split; [reflexivity|split; [reflexivity|exact (Hf eq_refl)]].
     + assumption.
     + intros i b Hb. rewrite refcount_app. unfold refcount at 2; cbn [filter r_blob].
       destruct (get_blob_app_inv _ _ _ _ Hb) as [Old|[-> ->]].
@@ -259,40 +282,113 @@ Definition winv (w : world) (extra : list partrow) : Prop :=
 Lemma inv_objs_change bl objs objs' rows : inv bl objs rows -> objs_ok objs' -> inv bl objs' rows.
 Proof. intros [R O F N] H. constructor; assumption. Qed.
 
+(** which (form, stored id) pairs the store loop hands to store_blob / blobHoldsContent *)
+Definition call_ok (f : form) (stored : option str) (content : str) : Prop :=
+  (f = FLocal content /\ stored = None) \/ (f = FS3 (okey content) /\ stored = Some (okey content)).
+
+Lemma blob_holds_form bl id content f stored :
+  call_ok f stored content ->
+  blob_holds bl id content stored = true ->
+  forall b, get_blob bl id = Some b -> form_ok (b_form b) content.
+Proof.
+  intros C H b Hb. unfold blob_holds in H. rewrite Hb in H.
+  destruct C as [[-> ->]|[-> ->]].
+  - destruct (b_form b) as [c|k] eqn:E.
+    + left. exact H.
+    + right. apply str_eqb_eq in H. split; [symmetry; exact H|eauto].
+  - destruct (okey content) as [|c0 k0] eqn:EK; [exfalso; eapply okey_ne; eassumption|].
+    destruct (b_form b) as [c|k] eqn:E; [discriminate|].
+    left. simpl. rewrite EK. exact H.
+Qed.
+
+Lemma new_row_holds bl kk f stored content :
+  call_ok f stored content ->
+  blob_holds (bl ++ [mkBlob kk f 1]) (S (length bl)) content stored = true.
+Proof.
+  intros C. unfold blob_holds. rewrite get_blob_app_new. simpl.
+  destruct C as [[-> ->]|[-> ->]].
+  - apply str_eqb_refl.
+  - destruct (okey content) as [|c0 k0] eqn:EK; [exfalso; eapply okey_ne; eassumption|].
+    apply str_eqb_refl.
+Qed.
+
+(** the reference is only ever given back for a row that existed before (so
+    DecrementBlobReference never reaches its "delete at 0" branch), and giving
+    it back restores the table *)
+Lemma give_back_keeps_row f stored bl enc content id bl' :
+  call_ok f stored content ->
+  store_blob key f bl enc content OOk = (Some id, bl') ->
+  blob_holds bl' id content stored = false ->
+  find_key bl (key enc content) = Some id /\ decr_ref bl' id = bl.
+Proof.
+  intros C H Hh. unfold store_blob in H.
+  destruct (find_key bl (key enc content)) as [i|] eqn:E; inversion H; subst.
+  - split; [reflexivity|apply decr_incr].
+  - rewrite (new_row_holds _ _ _ _ _ C) in Hh. discriminate.
+Qed.
+
+Lemma link_inv f stored bl objs rows p d0 r bl' row bl'' :
+  call_ok f stored (p_content p) ->
+  inv bl objs rows ->
+  store_blob key f bl (p_enc p) (p_content p) d0 = (r, bl') ->
+  link_or_inline p r bl' stored = (row, bl'') ->
+  inv bl'' objs (rows ++ [row]) /\ r_own row = p_content p /\ r_enc row = p_enc p.
+Proof.
+  intros C I Hs Hl. unfold link_or_inline in Hl.
+  destruct d0.
+  2:{ rewrite store_blob_fail in Hs. inversion Hs; subst. inversion Hl; subst.
+      split; [apply inv_inline; assumption|split; reflexivity]. }
+  destruct r as [id|].
+  2:{ unfold store_blob in Hs. destruct (find_key bl _); discriminate. }
+  destruct (blob_holds bl' id (p_content p) stored) eqn:Hh; inversion Hl; subst.
+  - split; [|split; reflexivity].
+    eapply inv_store_blob; [eassumption|eassumption|].
+    eapply blob_holds_form; eassumption.
+  - destruct (give_back_keeps_row _ _ _ _ _ _ _ C Hs Hh) as (_ & ->).
+    split; [apply inv_inline; assumption|split; reflexivity].
+Qed.
+
+Lemma s3_store_key objs content o k objs' o' lg :
+  s3_store okey objs content o = (Some k, objs', o', lg) -> k = okey content.
+Proof.
+  unfold s3_store. destruct (take o) as [h o1].
+  destruct (match h with OOk => has_obj objs (okey content) | OFail => false end).
+  - intros E; inversion E; reflexivity.
+  - destruct (take o1) as [q o2]. destruct q; intros E; inversion E; reflexivity.
+Qed.
+
 Lemma store_part_inv s3on w p o d extra row w' o' d' :
   winv w extra ->
   store_part key okey s3on w p o d = (row, w', o', d') ->
   winv w' (extra ++ [row]) /\ w_msgs w' = w_msgs w /\ r_own row = p_content p /\ r_enc row = p_enc p.
 Proof.
   unfold winv, all_rows. intros I E. unfold store_part in E.
-  assert (Inl : forall bl objs, inv bl objs (concat (w_msgs w) ++ extra) ->
-                inv bl objs (concat (w_msgs w) ++ extra ++ [inline_row p])).
-  { intros. rewrite app_assoc. apply inv_inline; assumption. }
   destruct (out_of_line p).
-  2:{ inversion E; subst. split; [apply Inl; assumption|split; [reflexivity|split; reflexivity]]. }
-  assert (Blob : forall f objs' d0 r bl',
-            objs_ok objs' ->
-            store_blob key f (w_blobs w) (p_enc p) (p_content p) d0 = (r, bl') ->
-            let row := match r with Some id => blob_row p id | None => inline_row p end in
-            inv bl' objs' (concat (w_msgs w) ++ extra ++ [row])).
-  { intros f objs' d0 r bl' Ho Hs. cbv zeta. pose proof (inv_objs_change _ _ _ _ I Ho) as I'.
-    destruct d0.
-    - destruct r as [id|].
-      + rewrite app_assoc. eapply inv_store_blob; eassumption.
-      + unfold store_blob in Hs. destruct (find_key (w_blobs w) _); discriminate.
-    - rewrite store_blob_fail in Hs. inversion Hs; subst. apply Inl; assumption. }
+  2:{ inversion E; subst. split; [|split; [reflexivity|split; reflexivity]].
+      rewrite app_assoc. apply inv_inline; assumption. }
   destruct s3on.
   - destruct (s3_store okey (w_objs w) (p_content p) o) as [[[r objs'] o1] lg] eqn:Es.
     pose proof (s3_store_objs _ _ _ _ _ _ _ (i_objs _ _ _ I) Es) as Ho.
+    pose proof (inv_objs_change _ _ _ _ I Ho) as I'.
     destruct (take d) as [d0 d1].
     destruct r as [k|].
-    + destruct (store_blob key (FS3 k) (w_blobs w) (p_enc p) (p_content p) d0) as [[id|] bl'] eqn:Eb;
-        inversion E; subst; simpl; (split; [exact (Blob _ _ _ _ _ Ho Eb)|split; [reflexivity|split; reflexivity]]).
-    + destruct (store_blob key (FLocal (p_content p)) (w_blobs w) (p_enc p) (p_content p) d0) as [[id|] bl'] eqn:Eb;
-        inversion E; subst; simpl; (split; [exact (Blob _ _ _ _ _ Ho Eb)|split; [reflexivity|split; reflexivity]]).
+    + rewrite (s3_store_key _ _ _ _ _ _ _ Es) in *.
+      destruct (store_blob key (FS3 (okey (p_content p))) (w_blobs w) (p_enc p) (p_content p) d0) as [r bl'] eqn:Eb.
+      destruct (link_or_inline p r bl' (Some (okey (p_content p)))) as [row0 bl''] eqn:El.
+      inversion E; subst; simpl.
+      destruct (link_inv _ _ _ _ _ _ _ _ _ _ _ (or_intror (conj eq_refl eq_refl)) I' Eb El) as (J & Own & Enc).
+      split; [rewrite app_assoc; exact J|split; [reflexivity|split; assumption]].
+    + destruct (store_blob key (FLocal (p_content p)) (w_blobs w) (p_enc p) (p_content p) d0) as [r bl'] eqn:Eb.
+      destruct (link_or_inline p r bl' None) as [row0 bl''] eqn:El.
+      inversion E; subst; simpl.
+      destruct (link_inv _ _ _ _ _ _ _ _ _ _ _ (or_introl (conj eq_refl eq_refl)) I' Eb El) as (J & Own & Enc).
+      split; [rewrite app_assoc; exact J|split; [reflexivity|split; assumption]].
   - destruct (take d) as [d0 d1].
-    destruct (store_blob key (FLocal (p_content p)) (w_blobs w) (p_enc p) (p_content p) d0) as [[id|] bl'] eqn:Eb;
-      inversion E; subst; simpl; (split; [exact (Blob _ _ _ _ _ (i_objs _ _ _ I) Eb)|split; [reflexivity|split; reflexivity]]).
+    destruct (store_blob key (FLocal (p_content p)) (w_blobs w) (p_enc p) (p_content p) d0) as [r bl'] eqn:Eb.
+    destruct (link_or_inline p r bl' None) as [row0 bl''] eqn:El.
+    inversion E; subst; simpl.
+    destruct (link_inv _ _ _ _ _ _ _ _ _ _ _ (or_introl (conj eq_refl eq_refl)) I Eb El) as (J & Own & Enc).
+    split; [rewrite app_assoc; exact J|split; [reflexivity|split; assumption]].
 Qed.
 
 Lemma store_parts_inv s3on ps : forall w o d acc rows w',
